@@ -862,12 +862,20 @@ func compareItems1(actual []ansi.Sequence, ref []simterm.Item, bounds map[int]bo
 					// a piece: must end at a read boundary
 					endByte := pos + len(g)
 					so := -1
+					rawAdj := false
 					for k, bo := range byteOffs {
 						if bo == endByte {
 							so = offs[k]
+							// how a raw invalid byte clusters with its
+							// neighbours is not defined: a split next to
+							// one is accepted
+							rawAdj = run[k].Raw || (k > 0 && run[k-1].Raw)
 						}
 					}
-					if so < 0 || !bounds[so] {
+					if rawAdj {
+						so = -2
+					}
+					if so != -2 && (so < 0 || !bounds[so]) {
 						return fmt.Sprintf("text %q: Print(%q) splits grapheme cluster %q away from any read boundary", T, g, cluster)
 					}
 				default:
